@@ -434,6 +434,73 @@ def replay_input(ctx, inp, d):
     return sorted(union) != res
 
 
+def relative_ids_case(ctx):
+    """Mapping files that name their triples maps with RELATIVE IRIs (`<#PersonMap>`): a relative IRI is resolved against the file it
+    stands in, so the same fragment in two files names two different triples maps.  Two files of one section, and the same two files
+    in two sections: the result must be the union of the files taken alone (and nothing may be rejected as a repeated triples map)."""
+    d = os.path.join(ctx.tmp, 'relids')
+    os.makedirs(d, exist_ok=True)
+    files, alone = [], []
+    for k, (pred, col) in enumerate((('name', 'n'), ('city', 'c'))):
+        csvp = os.path.join(d, f'd{k}.csv')
+        with open(csvp, 'w') as f:
+            f.write(f'id,{col}\n' + ''.join(f'{k}{i},v{k}{i}\n' for i in range(3)))
+        mp = os.path.join(d, f'rel{k}.ttl')
+        with open(mp, 'w') as f:
+            f.write(f'''@prefix rr: <http://www.w3.org/ns/r2rml#> . @prefix rml: <http://semweb.mmlab.be/ns/rml#> . @prefix ql: <http://semweb.mmlab.be/ns/ql#> .
+<#TheMap> rml:logicalSource [ rml:source "{csvp}"; rml:referenceFormulation ql:CSV ];
+  rr:subjectMap [ rr:template "http://ex.org/r/{{id}}" ];
+  rr:predicateObjectMap [ rr:predicate <http://ex.org/{pred}>; rr:objectMap [ rml:reference "{col}" ] ] .
+''')
+        files.append(mp)
+        alone.append({f'<http://ex.org/r/{k}{i}> <http://ex.org/{pred}> "v{k}{i}"' for i in range(3)})
+    want = sorted(alone[0] | alone[1])
+    head = '[CONFIGURATION]\noutput_format=N-TRIPLES\nnumber_of_processes=1\nlogging_level=CRITICAL\n'
+    for label, cfg in (('two files of one section', head + f'[DS]\nmappings={files[0]},{files[1]}\n'),
+                       ('two sections', head + f'[DS1]\nmappings={files[0]}\n[DS2]\nmappings={files[1]}\n')):
+        kind, res = run_cfg(cfg)
+        inp = {'kind': 'relative-ids', 'layout': label}
+        ctx.case(['relative-ids', label], nontrivial=True, kind='relative triples-map IRIs: ' + label)
+        ctx.traces_validated += 1
+        got = sorted(x.strip() for x in res) if kind == 'ok' else res
+        if kind != 'ok' or got != want:
+            ctx.violation(f'two mapping files using the same relative triples-map IRI ({label}): expected the union of the files taken alone '
+                          f'({len(want)} statements), got ' + (diff_text(want, got) if kind == 'ok' else f'an exception: {res}'), inp)
+
+
+def shared_parent_case(ctx):
+    """A triples map WITHOUT predicate-object maps (it only serves as the parent of referencing object maps) declared with the same
+    IRI in two data source sections: like any other repeated identifier it must be rejected, not resolved to whichever section
+    comes first."""
+    d = os.path.join(ctx.tmp, 'sharedparent')
+    os.makedirs(d, exist_ok=True)
+    secs = []
+    for k in (0, 1):
+        for name, text in ((f'p{k}.csv', 'code,label\n' + ''.join(f'c{i},L{k}{i}\n' for i in range(2))),
+                           (f'ch{k}.csv', 'id,code\n' + ''.join(f'{k}{i},c{i}\n' for i in range(2)))):
+            with open(os.path.join(d, name), 'w') as f:
+                f.write(text)
+        mp = os.path.join(d, f'sp{k}.ttl')
+        with open(mp, 'w') as f:
+            f.write(f'''@prefix rr: <http://www.w3.org/ns/r2rml#> . @prefix rml: <http://semweb.mmlab.be/ns/rml#> . @prefix ql: <http://semweb.mmlab.be/ns/ql#> .
+<http://ex.org/tm/Lookup> rml:logicalSource [ rml:source "{os.path.join(d, f'p{k}.csv')}"; rml:referenceFormulation ql:CSV ];
+  rr:subjectMap [ rr:template "http://ex.org/code{k}/{{label}}" ] .
+<http://ex.org/tm/Child{k}> rml:logicalSource [ rml:source "{os.path.join(d, f'ch{k}.csv')}"; rml:referenceFormulation ql:CSV ];
+  rr:subjectMap [ rr:template "http://ex.org/item/{{id}}" ];
+  rr:predicateObjectMap [ rr:predicate <http://ex.org/hasCode>;
+    rr:objectMap [ rr:parentTriplesMap <http://ex.org/tm/Lookup>; rr:joinCondition [ rr:child "code"; rr:parent "code" ] ] ] .
+''')
+        secs.append(f'[DS{k}]\nmappings={mp}\n')
+    cfg = '[CONFIGURATION]\noutput_format=N-TRIPLES\nnumber_of_processes=1\nlogging_level=CRITICAL\n' + ''.join(secs)
+    kind, res = run_cfg(cfg)
+    inp = {'kind': 'shared-parent'}
+    ctx.case(['shared-parent'], nontrivial=True, kind='parent-only triples map repeated in two sections')
+    ctx.traces_validated += 1
+    if kind == 'ok':
+        ctx.violation('a triples map without predicate-object maps declared in two data-source sections is not rejected: '
+                      f'{len(res)} statements, e.g. {sorted(res)[:2]}', inp)
+
+
 def run(ctx, lean, findings):
     rng = ctx.rng
     drv = ctx.get_driver() if ctx.model_available else None
@@ -470,6 +537,9 @@ def run(ctx, lean, findings):
         if clash and 'C12_F2' not in open_ids:
             ctx.violation('a constant that equals a triples-map IRI is rewritten to an internal rule id', witness_clash(), finding=None)
 
+    relative_ids_case(ctx)
+    shared_parent_case(ctx)
+
     n = ctx.budget(72, 2400) * (3 if ctx.escalate else 1)
     cap = 70 if ctx.tier == 'quick' else 690
     import concurrent.futures as cf
@@ -490,4 +560,12 @@ def run(ctx, lean, findings):
 
 
 def replay(ctx, data):
+    if data['input'].get('kind') == 'shared-parent':
+        before = len(ctx.violations)
+        shared_parent_case(ctx)
+        return len(ctx.violations) > before
+    if data['input'].get('kind') == 'relative-ids':
+        before = len(ctx.violations)
+        relative_ids_case(ctx)
+        return len(ctx.violations) > before
     return replay_input(ctx, data['input'], os.path.join(ctx.tmp, 'rp'))
